@@ -236,6 +236,11 @@ STRUCT += [
     ("user-twin-b-again", "TwinB", {"workDoneToken": 7, "traceLevel": "off"}),
     ("user-twin-a-again", "TwinA", {"traceLevel": 0}),
     ("user-local-a", "LocalA", {"firstName": "a", "retryCount": 3}),
+    ("user-sub-position", "TracedPosition", {"line": 1, "character": 2, "traceId": "t-9", "originFile": "a.py"}),
+    ("user-sub-range", "TaggedRange", {"start": {"line": 1, "character": 2}, "end": {"line": 3, "character": 4}, "tagName": "x", "lineCount": 2}),
+    ("user-sub-sub-position", "DeepTraced", {"line": 5, "character": 6, "traceId": "t-1", "hopCount": 3}),
+    ("user-sub-position-plain", "TracedPosition", {"line": 7, "character": 8}),
+    ("user-own-scalar", "UserDoc", {"uri": "FILE:///X.py", "version": 3, "links": ["A", "b"]}),
     ("user-unresolvable", "UserBroken", {"ident": 1}),
     ("user-holder-of-unresolvable", "UserHolder", {"position": {"line": 1, "character": 2}, "inner": {"ident": 2}}),
     ("user-holder-without-it", "UserHolder", {"position": {"line": 3, "character": 4}}),
